@@ -23,6 +23,7 @@ pub fn serve(script: Script) -> (String, Arc<Mutex<Vec<String>>>, std::thread::J
     let log2 = log.clone();
     let stop = Arc::new(std::sync::atomic::AtomicBool::new(false));
     let stop2 = stop.clone();
+    let base_for_headers = format!("http://{}", addr);
     let h = std::thread::spawn(move || {
         let mut n = 0usize;
         loop {
@@ -50,6 +51,8 @@ pub fn serve(script: Script) -> (String, Arc<Mutex<Vec<String>>>, std::thread::J
                     let path = req.lines().next().unwrap_or("").split(' ').nth(1).unwrap_or("").to_string();
                     log2.lock().unwrap().push(path);
                     let (status, headers, body) = script.responses[n.min(script.responses.len() - 1)].clone();
+                    // "{BASE}" in a scripted header (a Link to the next page) stands for this server's own address
+                    let headers = headers.replace("{BASE}", &base_for_headers);
                     n += 1;
                     let resp = format!(
                         "HTTP/1.1 {} X\r\nContent-Length: {}\r\nConnection: close\r\n{}\r\n",
